@@ -52,6 +52,11 @@ type C10Case struct {
 	NoFinalNL  bool      `json:"no_final_newline,omitempty"`
 	TruncateAt int       `json:"truncate_at,omitempty"` // >0: the body ends (EOF) after that many bytes
 	ErrorAt    int       `json:"error_at,omitempty"`    // >0: the body reader fails after that many bytes
+	// ErrWithData: the failing read hands over the last bytes together with io.ErrUnexpectedEOF and every later
+	// read says io.EOF - what the body of a net/http request does when the peer goes away before Content-Length
+	// is reached. ErrLine > 0 puts that point at the end of the n-th line of the body (before its newline).
+	ErrWithData bool `json:"err_with_data,omitempty"`
+	ErrLine     int  `json:"err_line,omitempty"`
 	Gzip       bool      `json:"gzip,omitempty"`
 	MaxDocSize int       `json:"max_doc_size"`
 	DriftMs    int64     `json:"drift_ms"`
@@ -154,13 +159,19 @@ type chunkReader struct {
 	rng    *verifsim.SplitMix
 	mode   uint64
 	errAt  int
-	closed bool
+	// withData: see C10Case.ErrWithData
+	withData bool
+	errDone  bool
+	closed   bool
 	yield  bool // concurrent phase: every Read is a scheduling point
 }
 
 func (r *chunkReader) Read(p []byte) (int, error) {
 	if r.yield {
 		verifsim.Yield(0)
+	}
+	if r.errDone {
+		return 0, io.EOF
 	}
 	if r.errAt > 0 && r.pos >= r.errAt {
 		return 0, errors.New("stub: connection reset by peer")
@@ -182,6 +193,10 @@ func (r *chunkReader) Read(p []byte) (int, error) {
 	}
 	copy(p, r.data[r.pos:r.pos+n])
 	r.pos += n
+	if r.withData && r.errAt > 0 && r.pos >= r.errAt {
+		r.errDone = true
+		return n, io.ErrUnexpectedEOF
+	}
 	return n, nil
 }
 func (r *chunkReader) Close() error { r.closed = true; return nil }
@@ -294,8 +309,37 @@ func (c *C10Case) expectation(body []byte, now time.Time, accepted bool) (docs [
 	return docs, ok, ambiguous, ""
 }
 
+// effErrAt is the byte position at which the body reader fails (0 = never).
+func (c *C10Case) effErrAt(wire []byte) int {
+	if c.ErrorAt <= 0 {
+		return 0
+	}
+	if c.ErrLine > 0 {
+		// the end of the ErrLine-th line (before its line terminator), if the body has that many lines
+		off, ln := 0, 0
+		for off < len(wire) {
+			i := bytes.IndexByte(wire[off:], '\n')
+			if i < 0 {
+				break
+			}
+			ln++
+			if ln == c.ErrLine && off+i > 0 {
+				at := off + i
+				if i > 0 && wire[at-1] == '\r' {
+					at--
+				}
+				if at > 0 {
+					return at
+				}
+			}
+			off += i + 1
+		}
+	}
+	return c.ErrorAt
+}
+
 func (c *C10Case) reference1(body []byte, now time.Time, lenient bool) (docs []storedDoc, ok bool, lax string) {
-	if c.ErrorAt > 0 && c.ErrorAt <= len(body) {
+	if e := c.effErrAt(body); e > 0 && e <= len(body) {
 		return nil, false, ""
 	}
 	// split into lines the way a line reader does: '\n' terminates, an optional '\r' before it is dropped
@@ -470,7 +514,10 @@ func RunC10(t *testing.T, c *C10Case) *RunResult {
 				zw.Close()
 				wire = zb.Bytes()
 			}
-			rd := &chunkReader{data: wire, rng: verifsim.NewSplitMix(cs), mode: cs, errAt: c.ErrorAt}
+			rd := &chunkReader{data: wire, rng: verifsim.NewSplitMix(cs), mode: cs, errAt: c.ErrorAt, withData: c.ErrWithData}
+			if !c.Gzip {
+				rd.errAt = c.effErrAt(wire)
+			}
 			if c.Gzip {
 				rd.errAt = 0
 				if c.ErrorAt > 0 {
@@ -605,7 +652,7 @@ func runC10Par(s *verifsim.Sim, c *C10Case, mp bulk.MappingProvider, violate fun
 	send := func(i int, mode uint64, yield bool) (int, int, []storedDoc, bool, bool) {
 		cc := c.marked(i)
 		body := cc.body(now)
-		rd := &chunkReader{data: body, rng: verifsim.NewSplitMix(c.Seed ^ uint64(i+1)*0x9e37), mode: mode, errAt: c.ErrorAt, yield: yield}
+		rd := &chunkReader{data: body, rng: verifsim.NewSplitMix(c.Seed ^ uint64(i+1)*0x9e37), mode: mode, errAt: c.effErrAt(body), withData: c.ErrWithData, yield: yield}
 		req := httptest.NewRequest(http.MethodPost, "/_bulk", rd)
 		rec := httptest.NewRecorder()
 		h.ServeHTTP(rec, req)
@@ -838,6 +885,12 @@ func GenC10(seed uint64, thorough bool, maxDoc int) *C10Case {
 	}
 	if r.Bool(0.1) {
 		c.ErrorAt = r.Range(1, 300)
+		if r.Bool(0.5) {
+			c.ErrWithData = true
+			if r.Bool(0.6) {
+				c.ErrLine = r.Range(1, 12)
+			}
+		}
 	}
 	c.ChunkSeeds = []uint64{0, 1, 2 + r.Uint64()%1000, 2 + r.Uint64()%1000}
 	if r.Bool(0.35) {
